@@ -33,6 +33,9 @@ GRID = [
     ["DistBeta", [3.0, 1.0]], ["DistBeta", [1.0, 3.0]], ["DistBeta", [0.5, 1.0]], ["DistBeta", [1, 2.5]], ["DistBeta", [2.0, 2.0]],
     ["DistPearson6", [1.0, 2.5, 1.0]], ["DistPearson6", [2.5, 1.0, 3.0]], ["DistPearson5", [2.0, 1.0]], ["DistWeibull", [2.0, 1.0]],
     ["DistGamma", [2.0, 1.0]], ["DistGamma", [0.5, 1.0]], ["DistErlang", [1.0, 2]], ["DistLogNormal", [0.0, 0.5]],
+    # shapes so small that both inner gamma draws regularly underflow: only what survives the float range is judged
+    # (draws in [0, 1]; a symmetric Beta puts half of its mass on either side of 0.5)
+    ["DistBeta", [0.001, 0.001]], ["DistBeta", [0.0005, 0.0005]], ["DistBeta", [0.002, 0.002]],
     ["DistBeta", [0.5, 0.5]], ["DistBeta", [1.0, 1.0]], ["DistBeta", [2.0, 5.0]], ["DistBeta", [0.7, 3.0]], ["DistBeta", [8, 1.5]],
     ["DistBinomial", [1, 0.3]], ["DistBinomial", [10, 0.5]], ["DistBinomial", [50, 0.02]], ["DistBinomial", [200, 0.9]],
     ["DistConstant", [2.5]],
@@ -204,6 +207,27 @@ def run_case(case, ctx):
         ctx.viol(f"sampling-raises:{cls}:{type(e).__name__}", {**info, "exc": repr(e)})
         return
     ctx.count("draws_tested", N1)
+    if cls == "DistBeta" and args[0] == args[1] and args[0] <= 0.002:
+        bad = [x for x in xs if not (0.0 <= x <= 1.0)]
+        if bad:
+            ctx.viol(f"draw-outside-support:{cls}", {**info, "value": repr(bad[0])})
+            return
+        above, below = sum(1 for x in xs if x > 0.5), sum(1 for x in xs if x < 0.5)
+        z1 = (above - below) / math.sqrt(max(1, above + below))
+        ctx.count("statistical_tests", 1)
+        if abs(z1) > 4.5:
+            seed2 = base.derive("c15-stage2", base.canon(case), os_seed()) % (2 ** 31)
+            _, xs2 = _sample(cls, args, seed2, N2)
+            ctx.count("draws_tested", N2)
+            ctx.count("stage2_runs")
+            a2, b2 = sum(1 for x in xs2 if x > 0.5), sum(1 for x in xs2 if x < 0.5)
+            z2 = (a2 - b2) / math.sqrt(max(1, a2 + b2))
+            if abs(z2) > 6.5 and (z1 > 0) == (z2 > 0):
+                ctx.viol(f"sample-disagrees-with-density:{cls}", {**info, "note": "a symmetric density, an asymmetric sample", "z_stage1": z1, "z_stage2": z2,
+                                                                  "above_half_stage2": a2, "below_half_stage2": b2, "seeds": [seed1, seed2]})
+                return
+        ctx.nontrivial = True
+        return
     if cls == "DistConstant":
         if any(x != args[0] for x in xs) or dist.probability_density(args[0]) != 1.0 or dist.probability_density(args[0] + 1) != 0.0:
             ctx.viol("constant-point-mass", info)
@@ -250,6 +274,24 @@ def run_case(case, ctx):
                 if abs(z2) > 6.5 and (z1 > 0) == (z2 > 0):
                     ctx.viol(f"sample-mean-disagrees-with-density:{cls}", {**info, "z_stage1": z1, "z_stage2": z2, "declared_mean": mu_,
                                                                           "sample_mean_stage2": float(bm.mean()), "seeds": [seed1, seedm]})
+                    return
+        # half of the draws on either side of the median of the declared density (robust where tails are heavy)
+        med_ = float(ref.median())
+        if math.isfinite(med_):
+            ctx.count("statistical_tests", 1)
+            ab, be = int((a > med_).sum()), int((a < med_).sum())
+            zs1 = (ab - be) / math.sqrt(max(1, ab + be))
+            if abs(zs1) > 4.5:
+                seeds_ = base.derive("c15-stage2-median", base.canon(case), os_seed()) % (2 ** 31)
+                _, xq = _sample(cls, args, seeds_, N2)
+                ctx.count("draws_tested", N2)
+                ctx.count("stage2_runs")
+                bq = np.asarray(xq, dtype=float)
+                ab2, be2 = int((bq > med_).sum()), int((bq < med_).sum())
+                zs2 = (ab2 - be2) / math.sqrt(max(1, ab2 + be2))
+                if abs(zs2) > 6.5 and (zs1 > 0) == (zs2 > 0):
+                    ctx.viol(f"sample-median-disagrees-with-density:{cls}", {**info, "z_stage1": zs1, "z_stage2": zs2, "declared_median": med_,
+                                                                            "above_stage2": ab2, "below_stage2": be2, "seeds": [seed1, seeds_]})
                     return
         if cls in ("DistNormal", "DistLogNormal", "DistNormalTrunc"):
             if not _cdf_checks(ctx, dist, ref, cls, args, info):
